@@ -195,6 +195,12 @@ class EventSeriesClimateNetwork(EventSeries, ClimateNetwork):
                                 threshold=0, directed=self.directed,
                                 **CN_kwargs)
 
+    def __cache_state__(self):
+        #  (the network part exists once Network.__init__() has run)
+        return EventSeries.__cache_state__(self) + (
+            ClimateNetwork.__cache_state__(self)
+            if hasattr(self, "_mut_A") else ())
+
     def __str__(self):
         """
         Return a string representation of EventSeriesClimateNetwork.
